@@ -16,37 +16,51 @@ from dliswriter import DLISFile
 SIMPLE = ['origin', 'zone', 'axis', 'comment', 'long_name', 'equipment', 'tool', 'no_format', 'message',
           'well_reference_point', 'group', 'channel', 'frame']
 KIDX = {k: i for i, k in enumerate(SIMPLE)}
-LATE_REJECT = {   # a keyword value the attribute converters refuse (after the item registered itself)
-    'zone': {'domain': 'NOT-A-DOMAIN'}, 'axis': {'spacing': 'abc'}, 'comment': {'text': [1]},
-    'long_name': {'quantity': 5}, 'equipment': {'status': 7}, 'tool': {'status': 7}, 'no_format': {'description': 3},
-    'message': {'text': [3]}, 'well_reference_point': {'permanent_datum': 1}, 'group': {'description': 1},
-    'origin': {'product': 5}, 'channel': {'minimum_value': 'x'},
+LATE_REJECT = {   # keyword values refused after the item registered itself: [TypeError/ValueError kind, RuntimeError kind]
+    'zone': [{'domain': 'NOT-A-DOMAIN'}, {'description': {'value': 'x', 'units': 'm'}}],
+    'axis': [{'spacing': 'abc'}, {'axis_id': {'value': 'A', 'units': 'm'}}],
+    'comment': [{'text': [1]}, {'text': {'value': ['t'], 'units': 'm'}}],
+    'long_name': [{'quantity': 5}, {'quantity': {'value': 'q', 'units': 's'}}],
+    'equipment': [{'status': 7}, {'status': {'value': 1, 'units': 's'}}],
+    'tool': [{'status': 7}, {'status': {'value': 1, 'units': 's'}}, {'parts': ['not-an-item']}],
+    'no_format': [{'description': 3}, {'description': {'value': 'd', 'units': 'm'}}],
+    'message': [{'text': [3]}, {'text': {'value': ['t'], 'units': 'm'}}],
+    'well_reference_point': [{'permanent_datum': 1}, {'permanent_datum': {'value': 'p', 'units': 'm'}}],
+    'group': [{'description': 1}, {'description': {'value': 'd', 'units': 'm'}}, {'object_list': [5]}],
+    'origin': [{'product': 5}, {'product': {'value': 'p', 'units': 'm'}}, {'descent_number': 'x'}],
+    'channel': [{'minimum_value': 'x'}, {'dimension': {'value': [1], 'units': 'm'}}, {'cast_dtype': 'not-a-dtype'}],
 }
 
 
 def gen_history(R, tier):
-    n_lf = R.choice([1, 1, 2, 2, 3])
+    n_lf = R.choice([1, 1, 2, 2, 3, 3, 4])
     share = R.random() < 0.35          # logical files use the same (default) set names
+    # otherwise every logical file draws its set names from a pool; pools may coincide for some logical files
+    # (adjacent or not) and differ for others
+    pool_of = [R.choice([0, 1, 2, lf + 10, lf + 10]) for lf in range(n_lf)]
     ops = []
-    names = ['A', 'B', 'C', 'Z9']
+    names = ['A', 'B', 'C', 'Z9'] if R.random() < 0.6 else ['A', 'B']
     n_ops = R.choice([3, 6, 10, 14])
     have_origin = [False] * n_lf
     for _ in range(n_ops):
         lf = R.randrange(n_lf)
         kind = R.choice(SIMPLE[:11] + ['origin'])
         if n_lf > 1 and not share:
-            sn = R.choice([f'L{lf}', f'L{lf}', f'L{lf}X'])
+            sn = R.choice([f'P{pool_of[lf]}', f'P{pool_of[lf]}', f'P{pool_of[lf]}X'])
+            if pool_of[lf] == 0 and R.random() < 0.5:
+                sn = None
         else:
             sn = R.choice([None, None, 'S1'])
         out = R.choice(['ok', 'ok', 'ok', 'ok', 'early', 'late'])
-        oref = R.choice([None, None, None, 0, 5, 128]) if kind != 'origin' else R.choice([None, None, None, 5, 7])
-        ops.append({'lf': lf, 'kind': kind, 'sn': sn, 'name': R.choice(names), 'oref': oref, 'out': out})
+        oref = R.choice([None, None, None, 0, 5, 5, 128]) if kind != 'origin' else R.choice([None, None, 5, 5, 7])
+        ops.append({'lf': lf, 'kind': kind, 'sn': sn, 'name': R.choice(names), 'oref': oref, 'out': out,
+                    'variant': R.randrange(3)})
         if kind == 'origin' and out == 'ok':
             have_origin[lf] = True
     # make every logical file complete: origin (maybe), one channel + frame in sets of its own
     for lf in range(n_lf):
         if not have_origin[lf] and R.random() < 0.9:
-            ops.insert(R.randrange(len(ops) + 1), {'lf': lf, 'kind': 'origin', 'sn': (f'L{lf}' if n_lf > 1 and not share else None),
+            ops.insert(R.randrange(len(ops) + 1), {'lf': lf, 'kind': 'origin', 'sn': (f'O{lf}' if n_lf > 1 and not share else None),
                                                    'name': 'ORG', 'oref': None, 'out': 'ok'})
         ops.append({'lf': lf, 'kind': 'channel', 'sn': f'__c{lf}', 'name': f'CH{lf}', 'oref': None, 'out': 'ok'})
         ops.append({'lf': lf, 'kind': 'frame', 'sn': f'__f{lf}', 'name': f'FR{lf}', 'oref': None, 'out': 'ok'})
@@ -87,7 +101,7 @@ def apply_history(h, drop_rejected=False):
         if op['out'] == 'early':
             name = 12345                      # not a str: refused before the item registers itself
         elif op['out'] == 'late':
-            kw.update(LATE_REJECT[kind])
+            kw.update(LATE_REJECT[kind][op.get('variant', 0) % len(LATE_REJECT[kind])])
         if kind == 'origin':
             kw.setdefault('file_set_number', 7)
             kw.setdefault('creation_time', '2020/01/01 00:00:00')
